@@ -62,6 +62,22 @@ type Snip struct {
 	N    string   `json:"n,omitempty"`    // expose: exposed name
 	Self string   `json:"self,omitempty"` // ROOT only: the package the writer generates into (default example.com/x)
 	Pan  bool     `json:"pan,omitempty"`  // probe: panics when it is rendered (otherwise it yields S)
+	// t: HOW the bindings reach T.  "" = one snippet.Arg per binding; "args" = ONE snippet.Args map value alone (the usual
+	// call of generators); "args+" = that map followed by a snippet.Arg that repeats its last binding.  Mut: what the CALLER
+	// does with that map after T(format, args) has returned and before anything is rendered (generators reuse one Args map
+	// for several templates).  The template renders the bindings it was BUILT with: Args of this term, never Mut.
+	Mode string `json:"mode,omitempty"`
+	Mut  []Mut  `json:"mut,omitempty"`
+	// snippets: the element templates with Mode "args" are built one after the other from ONE map (cleared and refilled
+	// for each of them), then the whole list is rendered
+	Share bool `json:"share,omitempty"`
+}
+
+// Mut is one later write to the caller's Args map: delete(m, N), or m[N] = S (S == nil: the nil interface)
+type Mut struct {
+	N   string `json:"n"`
+	Del bool   `json:"del,omitempty"`
+	S   *Snip  `json:"s,omitempty"`
 }
 
 // probeS is a snippet of the harness' own: it records that it was rendered and yields its text, or panics.
@@ -188,7 +204,10 @@ func goVal(v *Val) any {
 // build constructs the real snippet
 func build(s *Snip) snippet.Snippet { return buildRec(s, nil) }
 
-func buildRec(s *Snip, rec *recorder) snippet.Snippet {
+func buildRec(s *Snip, rec *recorder) snippet.Snippet { return buildShared(s, rec, nil) }
+
+// buildShared: shared != nil is the one Args map of the enclosing `snippets` term with Share set
+func buildShared(s *Snip, rec *recorder, shared snippet.Args) snippet.Snippet {
 	build := func(s *Snip) snippet.Snippet { return buildRec(s, rec) }
 	switch s.K {
 	case "nil":
@@ -210,6 +229,44 @@ func buildRec(s *Snip, rec *recorder) snippet.Snippet {
 				p.forbidden = fmt.Sprintf("the argument bound to %q was rendered although the format %s has no placeholder @%s", a.N, strconv.Quote(string(s.S)), a.N)
 			}
 			targs = append(targs, snippet.Arg(a.N, inner))
+		}
+		if s.Mode == "args" || s.Mode == "args+" {
+			// the bindings travel in one snippet.Args map, as generators write it
+			var m snippet.Args // no binding at all: a nil map
+			if shared != nil {
+				m = shared
+				clear(m)
+			} else if len(targs) > 0 || len(s.Mut) > 0 {
+				m = snippet.Args{}
+			}
+			for _, ta := range targs {
+				for n, x := range ta.Args() {
+					m[n] = x
+				}
+			}
+			var t snippet.Snippet
+			if s.Mode == "args+" && len(targs) > 0 {
+				t = snippet.T(string(s.S), m, targs[len(targs)-1])
+			} else {
+				t = snippet.T(string(s.S), m)
+			}
+			// T has returned: what the caller does with ITS map now is not part of T(format, args)
+			for i := range s.Mut {
+				mu := &s.Mut[i]
+				if mu.Del {
+					delete(m, mu.N)
+					continue
+				}
+				var inner snippet.Snippet
+				if mu.S != nil {
+					inner = build(mu.S)
+				}
+				if p, ok := inner.(*probe); ok {
+					p.forbidden = fmt.Sprintf("a snippet the caller stored under %q in its Args map AFTER T(%s, args) had been built was rendered by that template", mu.N, strconv.Quote(string(s.S)))
+				}
+				m[mu.N] = inner
+			}
+			return t
 		}
 		return snippet.T(string(s.S), targs...)
 	case "sprintf":
@@ -233,7 +290,15 @@ func buildRec(s *Snip, rec *recorder) snippet.Snippet {
 		return snippet.GoDirective(string(s.S), s.Strs...)
 	case "snippets":
 		var parts []snippet.Snippet
+		var one snippet.Args
+		if s.Share {
+			one = snippet.Args{}
+		}
 		for i := range s.L {
+			if one != nil && s.L[i].K == "t" && s.L[i].Mode != "" {
+				parts = append(parts, buildShared(&s.L[i], rec, one))
+				continue
+			}
 			parts = append(parts, build(&s.L[i]))
 		}
 		return snippet.Snippets(func(yield func(snippet.Snippet) bool) {
@@ -393,7 +458,7 @@ type observed struct {
 	Panic   bool              `json:"panic"`
 	Out     string            `json:"out"` // bytes written (before the panic, if any), Go-quoted
 	Msg     string            `json:"panic_value,omitempty"`
-	Imports map[string]string `json:"imports,omitempty"` // ImportTracker.Imports() after the rendering
+	Imports map[string]string `json:"imports,omitempty"`         // ImportTracker.Imports() after the rendering
 	Probes  int               `json:"probes_rendered,omitempty"` // how many times a probe snippet of the harness was rendered
 }
 
@@ -525,6 +590,26 @@ func features(s *Snip) []string {
 			if strings.HasPrefix(f, "\n") {
 				set["t:leading_nl"] = true
 			}
+			if s.Mode != "" {
+				set["t:args_map"] = true
+				if len(s.Args) == 0 && len(s.Mut) == 0 {
+					set["t:args_map_nil"] = true
+				}
+			}
+			for i := range s.Mut {
+				bound := false
+				for j := range s.Args {
+					bound = bound || s.Args[j].N == s.Mut[i].N
+				}
+				switch {
+				case s.Mut[i].Del && bound:
+					set["t:args_map_then_delete"] = true
+				case bound:
+					set["t:args_map_then_rebind"] = true
+				case !s.Mut[i].Del:
+					set["t:args_map_then_add"] = true
+				}
+			}
 			for i := range s.Args {
 				if s.Args[i].N != "" && !strings.Contains(f, "@"+s.Args[i].N) {
 					set["t:arg_not_mentioned"] = true
@@ -562,6 +647,9 @@ func features(s *Snip) []string {
 			}
 		case "snippets":
 			set["snippets"] = true
+			if s.Share {
+				set["snippets:one_args_map_for_all"] = true
+			}
 		case "fragments":
 			set["fragments"] = true
 		}
